@@ -23,7 +23,7 @@ fn expr_options(opts: &[Vec<String>]) -> Vec<usize> {
             || o[0].starts_with("--split-by=")
             || o[0].starts_with("--sort-by=")
             || o[0].starts_with("--group-by=")
-            || (o[0] == "--set" && o.len() == 2 && o[1].starts_with('@'))
+            || (o[0] == "--set" && o.len() == 2 && o[1].find('=').map_or(false, |p| p > 0 && p + 1 < o[1].len()))
         {
             v.push(i);
         }
@@ -133,7 +133,7 @@ impl Property for C18 {
         let exprs = expr_options(&case.opts);
         let kind: &str;
         // choose a corruption; fall back to one that is always possible
-        let choice = rng.below(14);
+        let choice = rng.below(16);
         let fresh_position = |rng: &mut Rng, expr: &str| -> Vec<String> {
             match rng.below(6) {
                 0 => vec![format!("--filter={expr}")],
@@ -221,6 +221,27 @@ impl Property for C18 {
                 needs.push(o.last().unwrap().clone());
                 case.opts[i] = o;
                 kind = "trailing-garbage";
+            }
+            14 | 15
+                if exprs
+                    .iter()
+                    .any(|i| split_expr(&case.opts[*i]).1.ends_with(')')) =>
+            {
+                // one stray character directly after a complete call (no whitespace): an
+                // extra closing bracket or a letter. (After `.key` a letter would merely
+                // extend the key, so only calls are corrupted this way.)
+                let calls: Vec<usize> = exprs
+                    .iter()
+                    .copied()
+                    .filter(|i| split_expr(&case.opts[*i]).1.ends_with(')'))
+                    .collect();
+                let i = *rng.pick(&calls);
+                let (p, e, s) = split_expr(&case.opts[i]);
+                let g = *rng.pick(&[")", "]", "}", "x", ",", ";", "!"]);
+                let o = join_expr(&case.opts[i], &p, &format!("{e}{g}"), &s);
+                needs.push(o.last().unwrap().clone());
+                case.opts[i] = o;
+                kind = "glued-garbage";
             }
             6 => {
                 let o = vec![format!("--sort-by=.n={}", rng.pick(&["UP", "DOWN", "descending", "A SC", "1"]))];
